@@ -875,19 +875,24 @@ pub fn main(tier: Tier) -> i32 {
     let mut idxs: Vec<usize> = (0..scs.len()).filter(|i| only.as_ref().map(|o| scs[*i].name().contains(o.as_str())).unwrap_or(true)).collect();
     // the single-channel races and the scenarios with preparation first
     idxs.sort_by_key(|i| (scs[*i].prep.is_empty() && !scs[*i].reqs.iter().any(|r| matches!(r, Req::Validate | Req::Revoke | Req::SignHolder1 | Req::CpRevoke)), *i));
-    // phase A: the base bound on every scenario; phase B: one more preemption, as far as the budget goes
-    let base = tier.pick(1, 2);
+    // bound 1 on every scenario is required; every further bound goes as far as the budget does
+    // (each exploration with bound b covers every schedule with <= b preemptions)
+    let base = 1usize;
     let t0 = Instant::now();
-    let dl_a = t0 + std::time::Duration::from_secs_f64(tier.pick(40.0, 900.0));
-    let dl_b = t0 + std::time::Duration::from_secs_f64(tier.pick(52.0, 2400.0));
+    let plan: Vec<(usize, f64, f64)> = match tier {
+        // (bound, per-scenario wall, deadline from the start)
+        Tier::Quick => vec![(1, 30.0, 40.0), (2, 30.0, 52.0)],
+        Tier::Thorough => vec![(1, 300.0, 600.0), (2, 1500.0, 2400.0), (3, 900.0, 3300.0)],
+    };
+    let maxb0 = plan.iter().map(|p| p.0).max().unwrap();
     let mut all: Vec<(usize, usize, Result<ScenResult, String>)> = vec![];
-    for (i, r) in run_phase(tier, &scs, &idxs, base, tier.pick(30.0, 600.0), dl_a) {
-        all.push((base, i, r));
+    for (b, per, dl) in plan {
+        let deadline = t0 + std::time::Duration::from_secs_f64(dl);
+        for (i, r) in run_phase(tier, &scs, &idxs, b, per, deadline) {
+            all.push((b, i, r));
+        }
     }
-    for (i, r) in run_phase(tier, &scs, &idxs, base + 1, tier.pick(30.0, 900.0), dl_b) {
-        all.push((base + 1, i, r));
-    }
-    let maxb = base + 1;
+    let maxb = maxb0;
     let mut schedules = 0u64;
     let mut points = 0u64;
     let mut by_pre = vec![0u64; maxb + 1];
@@ -935,7 +940,7 @@ pub fn main(tier: Tier) -> i32 {
         "transitions": points,
         "traces_validated_against_impl": schedules,
         "exhaustive": true,
-        "preemption_bound_completed_for_every_scenario": base,
+        "preemption_bound_completed_for_every_scenario": (1..=maxb).take_while(|b| complete[*b] == idxs.len()).last().unwrap_or(0),
         "scenarios": idxs.len(),
         "scenarios_complete_by_bound": complete,
         "scenarios_not_started_by_bound": not_started,
